@@ -143,6 +143,8 @@ pub struct WriterCfg {
     /// `wflush=ok|err|pend`, `wclose=ok|err|pend`: what `poll_flush` / `poll_close` answer (`pend` never wakes).
     pub flush: SideCall,
     pub close: SideCall,
+    /// `wtrace=1`: log `WCALLS calls=<n> pend=<k> bytes=<b>` when the transport is replaced and at the end of the script.
+    pub trace: bool,
 }
 
 #[derive(Clone, Copy, PartialEq, Eq)]
@@ -171,6 +173,10 @@ pub struct WriterState {
     yielded: bool,
     /// Accepted bytes that do not yet form a whole packet.
     pending: Vec<u8>,
+    /// `poll_write` calls made by the client / answered `Pending`.
+    calls: usize,
+    pendings: usize,
+    raw: bool,
 }
 
 impl WriterState {
@@ -180,6 +186,9 @@ impl WriterState {
             accepted: 0,
             yielded: false,
             pending: Vec::new(),
+            calls: 0,
+            pendings: 0,
+            raw: false,
         }
     }
 
@@ -188,6 +197,22 @@ impl WriterState {
         if !self.pending.is_empty() {
             obs::emit(&format!("WRAW {}", obs::hex(&self.pending)));
             self.pending.clear();
+            self.raw = true;
+        }
+    }
+
+    /// `wtrace=1`: what the client asked of this transport (`?` once bytes that are no whole packet were reported, or a
+    /// byte budget cut a write short: the model's `write_all` statistics are defined for whole packets only).
+    pub fn flush_stats(&mut self) {
+        if self.cfg.trace {
+            if self.raw || self.cfg.werr.is_some() || self.cfg.wzero.is_some() {
+                obs::emit("WCALLS ?");
+            } else {
+                obs::emit(&format!(
+                    "WCALLS calls={} pend={} bytes={}",
+                    self.calls, self.pendings, self.accepted
+                ));
+            }
         }
     }
 
@@ -247,6 +272,7 @@ impl AsyncWrite for MockWriter {
     ) -> Poll<io::Result<usize>> {
         let mut st = self.state.borrow_mut();
         let cfg = st.cfg;
+        st.calls += 1;
 
         if let Some(n) = cfg.werr {
             if st.accepted >= n {
@@ -265,6 +291,7 @@ impl AsyncWrite for MockWriter {
 
         if cfg.pend && !st.yielded {
             st.yielded = true;
+            st.pendings += 1;
             cx.waker().wake_by_ref();
             return Poll::Pending;
         }
